@@ -1366,7 +1366,7 @@ def cases_for(prop, tier, seed):
     g = Gen(seed, stream=int(prop[1:]))
     k = 30 if thorough else 1
     if prop == "C16":
-        return CORPUS.get(prop, []) + prof_four_syntaxes(g, 120 * k) + prof_defaults(g, 80 * k)
+        return CORPUS.get(prop, []) + prof_four_syntaxes(g, 120 * k) + prof_defaults(g, 80 * k) + prof_manifest_corners(g, 60 * k)
     if prop == "C06":
         cs = [case({"config": {"register_address_type": "u8", "default_byte_order": "LE"}, "objects": [
             {"kind": "register", "name": "Wide", "address": "1", "size_bits": 160,
@@ -1603,6 +1603,73 @@ def cases_for(prop, tier, seed):
     if prop == "C20":
         return CORPUS.get(prop, []) + prof_c20(g, 40 * k)
     return _cases_for_base6(prop, tier, seed)
+
+
+# ------------------------------------------------------------------------------------ malformed manifests (C16)
+
+def prof_manifest_corners(g, n):
+    """Manifests the DSL cannot express: one unknown / misplaced key, one missing required key, or one value of the wrong
+    type, somewhere in a small device - written in JSON, YAML and TOML. They are read by the key-level model only
+    (`tree_only`: DDV.Gen.ManTree on the tree the real parser built); the three syntaxes must agree with each other."""
+    out = []
+    WRONG = ["five", True, 1.5, -1, [1], {"a": 1}]
+    TYPOS = {"address": "adress", "size_bits": "size_bit", "access": "acess", "byte_order": "byte-order", "fields": "field",
+             "repeat": "repeats", "reset_value": "reset", "type": "Type", "cfg": "cfgs", "description": "descr", "count": "cnt",
+             "stride": "step", "base": "basetype", "start": "begin", "end": "stop", "target": "targets", "override": "overrides",
+             "conversion": "convert", "objects": "object", "address_offset": "offset", "allow_address_overlap": "allow_overlap"}
+    ELSEWHERE = ["size_bits", "fields", "objects", "access", "repeat", "allow_bit_overlap", "byte_order", "address", "target",
+                 "base", "count", "reset_value", "size_bits_in", "address_offset", "default_byte_order", "name"]
+    for i in range(n):
+        g.reset_names()
+        fld = {"name": "lvl", "base": "uint", "start": 0, "end": 4, "access": "RW",
+               "conversion": {"enum": {"name": "Lvl", "variants": [{"name": "Lo", "value": None if False else "0"}, {"name": "Hi", "value": "1"},
+                                                                  {"name": "Rest", "value": "default"}]}, "try": False}}
+        fld2 = {"name": "en", "base": "bool", "start": 4}
+        rep = {"count": "2", "stride": "4"}
+        reg = {"kind": "register", "name": "Ctrl", "address": "1", "size_bits": 8, "access": "RW", "byte_order": "LE",
+               "reset": {"int": "3"}, "repeat": rep, "fields": [fld, fld2]}
+        cmd = {"kind": "command", "name": "Go", "address": "2", "size_bits_in": 8, "fields_in": [{"name": "arg", "base": "uint", "start": 0, "end": 8}]}
+        buf = {"kind": "buffer", "name": "Fifo", "address": "3", "access": "RO"}
+        ov = {"kind": "register", "address": "40", "access": "RO", "repeat": {"count": "2", "stride": "1"}}
+        ref = {"kind": "ref", "name": "Alias", "target": "Ctrl", "override": ov}
+        blk = {"kind": "block", "name": "Bank", "address_offset": "16", "objects": [reg, cmd]}
+        cfg = {"register_address_type": "u8", "command_address_type": "u8", "buffer_address_type": "u8", "default_byte_order": "LE",
+               "default_field_access": "RW"}
+        sites = [("config", cfg, ["register_address_type", "default_byte_order", "default_field_access"], []),
+                 ("register", reg, ["address", "size_bits", "access", "byte_order", "reset", "repeat", "fields"], ["address", "size_bits", "type"]),
+                 ("field", fld, ["base", "start", "end", "access", "conversion"], ["base", "start"]),
+                 ("bool field", fld2, ["base", "start"], ["base", "start"]),
+                 ("command", cmd, ["address", "size_bits_in", "fields_in"], ["address", "type"]),
+                 ("buffer", buf, ["address", "access"], ["address", "type"]),
+                 ("ref", ref, ["target", "override"], ["target", "override", "type"]),
+                 ("override", ov, ["address", "access", "repeat"], ["type"]),
+                 ("repeat", rep, ["count", "stride"], ["count", "stride"]),
+                 ("block", blk, ["address_offset", "objects"], ["type"])]
+        where, d, present, required = g.pick(sites)
+        mkey = {"reset": "reset_value"}   # ADEF key -> manifest key where they differ
+        kind = g.pick(["extra", "extra", "elsewhere", "omit", "retype", "retype"])
+        if kind == "omit" and not required:
+            kind = "extra"
+        if kind == "extra":
+            k = g.pick(present + ["type"])
+            d["x_extra"] = [[TYPOS.get(mkey.get(k, k), mkey.get(k, k) + "_"), g.pick([1, "x", True])]]
+        elif kind == "elsewhere":
+            legal = {"config": [], "register": ["size_bits", "fields", "access", "repeat", "allow_bit_overlap", "byte_order", "address", "reset_value"],
+                     "field": ["access", "base"], "bool field": ["access", "base"], "command": ["fields", "repeat", "allow_bit_overlap", "byte_order", "address", "size_bits_in"],
+                     "buffer": ["access", "address"], "ref": ["target"], "override": ["access", "repeat", "address", "reset_value"], "repeat": ["count"],
+                     "block": ["objects", "repeat", "address_offset"]}[where]
+            k = g.pick([x for x in ELSEWHERE if x not in legal])
+            d["x_extra"] = [[k, g.pick([1, "LE", True])]]
+        elif kind == "omit":
+            d["x_omit"] = [g.pick(required)]
+        else:
+            k = g.pick(present)
+            d["x_retype"] = {mkey.get(k, k): g.pick(WRONG)}
+        adef = {"config": cfg, "objects": [blk, buf, ref]}
+        for syn in ("json", "yaml", "toml"):
+            out.append(case(copy.deepcopy(adef), syn, "four", group=20_000_000 + i, want_mir=True, want_tokens=True, tree_only=True,
+                            corner=f"{kind} in {where}"))
+    return out
 
 
 # ------------------------------------------------------------------------------------ manifest key order (every profile)
